@@ -469,6 +469,161 @@ def translate_cache(srcdir):
     return t1 + "\n" + t2, {"rrulebase._iter_cached": f1, "rrulebase._invalidate_cache": f2}
 
 
+# ------------------------------------------------------------------ (2) rruleset._genitem and rruleset._iter
+
+def find_genitem(tree):
+    for node in tree.body:
+        if isinstance(node, ast.ClassDef) and node.name == "rruleset":
+            for m in node.body:
+                if isinstance(m, ast.ClassDef) and m.name == "_genitem":
+                    return m
+    raise Untranslatable("rrbase: rruleset._genitem not found")
+
+
+def translate_merge(srcdir):
+    tree = ast.parse(open(os.path.join(srcdir, "rrule.py")).read())
+    u = ast.unparse
+    gi = find_genitem(tree)
+    meths = dict((m.name, m) for m in gi.body if isinstance(m, ast.FunctionDef))
+    fps = {}
+    out = []
+    # __init__
+    fn = meths.get("__init__")
+    if fn is None or [a.arg for a in fn.args.args] != ["self", "genlist", "gen"]:
+        raise Untranslatable("rrbase: _genitem.__init__ signature")
+    b = strip_doc(fn.body)
+    ok = (len(b) == 3 and isinstance(b[0], ast.Try) and [u(x) for x in b[0].body] == ["self.dt = advance_iterator(gen)", "genlist.append(self)"]
+          and len(b[0].handlers) == 1 and u(b[0].handlers[0].type) == "StopIteration" and [u(x) for x in b[0].handlers[0].body] == ["pass"]
+          and not b[0].orelse and not b[0].finalbody and u(b[1]) == "self.genlist = genlist" and u(b[2]) == "self.gen = gen")
+    if not ok:
+        raise U(fn, "_genitem.__init__")
+    out.append("/-- translated from `rrule.py:rruleset._genitem.__init__` -/\ndef genitemInit : MergePy.InitProg :=\n"
+               "  { advancesInTry := true, appendsSelf := true, stopIsPass := true, keepsGenlist := true, keepsGen := true }\n")
+    fps["_genitem.__init__"] = fp(fn)
+    # __next__
+    fn = meths.get("__next__")
+    if fn is None or [a.arg for a in fn.args.args] != ["self"]:
+        raise Untranslatable("rrbase: _genitem.__next__ signature")
+    b = strip_doc(fn.body)
+    ok = (len(b) == 1 and isinstance(b[0], ast.Try) and [u(x) for x in b[0].body] == ["self.dt = advance_iterator(self.gen)"]
+          and len(b[0].handlers) == 1 and u(b[0].handlers[0].type) == "StopIteration" and not b[0].orelse and not b[0].finalbody
+          and len(b[0].handlers[0].body) == 1 and isinstance(b[0].handlers[0].body[0], ast.If) and u(b[0].handlers[0].body[0].test) == "self.genlist[0] is self")
+    if not ok:
+        raise U(fn, "_genitem.__next__")
+
+    def removal(stmts):
+        t = [u(x) for x in stmts]
+        if t == ["heapq.heappop(self.genlist)"]:
+            return ".heappop"
+        if t == ["self.genlist.remove(self)", "heapq.heapify(self.genlist)"]:
+            return ".removeHeapify"
+        raise U(stmts[0] if stmts else fn, "_genitem.__next__: removal")
+    iff = b[0].handlers[0].body[0]
+    out.append("/-- translated from `rrule.py:rruleset._genitem.__next__` -/\ndef genitemNext : MergePy.NextProg :=\n"
+               "  { advancesInTry := true, ifTop := %s, otherwise := %s }\n" % (removal(iff.body), removal(iff.orelse)))
+    fps["_genitem.__next__"] = fp(fn)
+    # comparisons
+    ops = {ast.Lt: ".lt", ast.Gt: ".gt", ast.Eq: ".eq", ast.NotEq: ".ne"}
+    cm = {}
+    for name in ("__lt__", "__gt__", "__eq__", "__ne__"):
+        fn = meths.get(name)
+        b = strip_doc(fn.body) if fn is not None else []
+        ok = (fn is not None and [a.arg for a in fn.args.args] == ["self", "other"] and len(b) == 1 and isinstance(b[0], ast.Return)
+              and isinstance(b[0].value, ast.Compare) and len(b[0].value.ops) == 1 and type(b[0].value.ops[0]) in ops
+              and u(b[0].value.left) == "self.dt" and u(b[0].value.comparators[0]) == "other.dt")
+        if not ok:
+            raise Untranslatable("rrbase: _genitem.%s" % name)
+        cm[name] = ops[type(b[0].value.ops[0])]
+        fps["_genitem.%s" % name] = fp(fn)
+    out.append("/-- translated from `rrule.py:rruleset._genitem.__lt__ / __gt__ / __eq__ / __ne__` -/\ndef genitemCmp : MergePy.CmpProg :=\n"
+               "  { lt := %s, gt := %s, eq := %s, ne := %s }\n" % (cm["__lt__"], cm["__gt__"], cm["__eq__"], cm["__ne__"]))
+    # _iter
+    fn = find_method(tree, "rruleset", "_iter")
+    b = strip_doc(fn.body)
+    heaps = {"rlist": ".rlist", "exlist": ".exlist"}
+    roles = {"_rdate": ".rdate", "_rrule": ".rrule", "_exdate": ".exdate", "_exrule": ".exrule"}
+    items = {"ritem": ".ritem", "exitem": ".exitem"}
+
+    def setup(s):
+        t = u(s)
+        if t == "generation = self._generation":
+            return ".readGeneration"
+        for h in heaps:
+            if t == "%s = []" % h:
+                return ".newList %s" % heaps[h]
+            if t == "heapq.heapify(%s)" % h:
+                return ".heapify %s" % heaps[h]
+            for r in roles:
+                if t == "self._genitem(%s, iter(self.%s))" % (h, r):
+                    return ".genitemDates %s %s" % (heaps[h], roles[r])
+                if isinstance(s, ast.For) and t == "for gen in [iter(x) for x in self.%s]:\n    self._genitem(%s, gen)" % (r, h):
+                    return ".genitemRules %s %s" % (heaps[h], roles[r])
+        for r in roles:
+            if t == "self.%s.sort()" % r:
+                return ".sortDates %s" % roles[r]
+        if t == "lastdt = None":
+            return ".lastNone"
+        if t == "total = 0":
+            return ".totalZero"
+        raise U(s, "_iter: setup statement")
+
+    def simple(s):
+        t = u(s)
+        for i in items:
+            for h in heaps:
+                if t == "%s = %s[0]" % (i, h):
+                    return ".bindTop %s %s" % (items[i], heaps[h])
+                if isinstance(s, ast.If) and t == "if %s and %s[0] is %s:\n    heapq.heapreplace(%s, %s)" % (h, h, i, h, i):
+                    return ".ifTopIsReplace %s %s" % (heaps[h], items[i])
+            if t == "advance_iterator(%s)" % i:
+                return ".advance %s" % items[i]
+        if t == "total += 1":
+            return ".incTotal"
+        if t == "yield ritem.dt":
+            return ".yieldDt"
+        if t == "lastdt = ritem.dt":
+            return ".setLast"
+        return None
+
+    def simples(stmts):
+        r = []
+        for s in stmts:
+            v = simple(s)
+            if v is None:
+                raise U(s, "_iter: statement")
+            r.append(v)
+        return "[" + ", ".join(r) + "]"
+
+    def fresh(s):
+        v = simple(s)
+        if v is not None:
+            return ".simple (%s)" % v
+        if isinstance(s, ast.While) and u(s.test) == "exlist and exlist[0] < ritem" and not s.orelse:
+            return ".whileBelow %s" % simples(s.body)
+        if isinstance(s, ast.If) and u(s.test) == "not exlist or ritem != exlist[0]" and not s.orelse:
+            return ".ifEmit %s" % simples(s.body)
+        raise U(s, "_iter: statement")
+
+    def main(s):
+        v = simple(s)
+        if v is not None:
+            return ".simple (%s)" % v
+        if isinstance(s, ast.If) and u(s.test) == "not lastdt or lastdt != ritem.dt" and not s.orelse:
+            return ".ifFresh [%s]" % ", ".join(fresh(x) for x in s.body)
+        raise U(s, "_iter: statement")
+    k = next((j for j, s in enumerate(b) if isinstance(s, ast.While)), None)
+    if k is None or k != len(b) - 2 or u(b[k].test) != "rlist" or b[k].orelse:
+        raise U(fn, "_iter: `while rlist:` followed by the publication of _len expected")
+    pub = b[-1]
+    if not (isinstance(pub, ast.If) and u(pub.test) == "generation == self._generation" and not pub.orelse and [u(x) for x in pub.body] == ["self._len = total"]):
+        raise U(pub, "_iter: publication of _len")
+    out.append("/-- translated from `rrule.py:rruleset._iter` -/\ndef rsetIterProgram : MergePy.IterProg :=\n  { setup := [%s],\n    body := [%s],\n    publishesLenGuarded := true }\n"
+               % (", ".join(setup(s) for s in b[:k]), ", ".join(main(s) for s in b[k].body)))
+    fps["rruleset._iter"] = fp(fn)
+    return "\n".join(out), fps
+
+
 # (Generated module, Lean import, translator function)
 MODULES = [("RRBaseQueries", "DateutilVerif.Model.ScanPy", "translate_queries"),
-           ("RRBaseCache", "DateutilVerif.Model.CachePy", "translate_cache")]
+           ("RRBaseCache", "DateutilVerif.Model.CachePy", "translate_cache"),
+           ("RSetMerge", "DateutilVerif.Model.MergePy", "translate_merge")]
